@@ -52,7 +52,11 @@ def linSteps (indef : Int) (avg : F64) (steps : List (Int × F64)) : Res Int := 
   let v ← interp steps (avg / ofInt 1000)
   pure (toInt indef (round v))
 
-def sumInts (vs : List Int) : Int := vs.foldl (· + ·) 0
+/-- Go `int` arithmetic is 64-bit two's complement: wrap a mathematical integer into that range.
+    (Only matters once an implementation-defined `int(NaN)` = `indef` flows into an aggregate.) -/
+def wrap64 (n : Int) : Int := (n + 2^63) % 2^64 - 2^63
+
+def sumInts (vs : List Int) : Int := vs.foldl (fun a b => wrap64 (a + b)) 0
 
 /-- the `switch` of `FunctionSpeedCurve.Evaluate` over the member values. -/
 def evalFn (indef : Int) (ty : String) (vs : List Int) : Res Int :=
@@ -61,7 +65,7 @@ def evalFn (indef : Int) (ty : String) (vs : List Int) : Res Int :=
   else if ty = "difference" then
     let d := match vs with
       | [] => 0
-      | v :: rest => rest.foldl (· - ·) v
+      | v :: rest => rest.foldl (fun a b => wrap64 (a - b)) v
     .ok (toInt indef (fmax (ofInt 0) (ofInt d)))
   else if ty = "delta" then
     match vs with
